@@ -105,3 +105,10 @@ func init() {
 		Quick:    tierCfg{Shards: 16, Checks: 200, Procs: mixedProcs, TimeoutS: 900, ReplayRepeat: 30},
 		Thorough: tierCfg{Shards: 16, Checks: 4000, Procs: mixedProcs, TimeoutS: 5400, ReplayRepeat: 100}}
 }
+
+func init() {
+	specs["C08"] = propSpec{Level: "fault_enumeration",
+		Quick:    tierCfg{Shards: 8, Checks: 300, EnumShards: 16, Procs: mixedProcs, TimeoutS: 900, ReplayRepeat: 20},
+		Thorough: tierCfg{Shards: 16, Checks: 5000, EnumShards: 16, Procs: mixedProcs, TimeoutS: 5400, ReplayRepeat: 100,
+			Fuzz: []fuzzCfg{{"FuzzServeFrames", 180}, {"FuzzClientFrames", 180}}}}
+}
